@@ -587,13 +587,35 @@ def _build_sop_numbering(tree):
         raise Unsupported('SOP constructor: loop `for i, group in enumerate(annotation_groups)` not found')
     body = loops[0].body
     blk = []
-    for st in _fresh(body):
+    known_blk = []
+    dropped = 0
+    for st in _fresh(body, {'AnnotationCoordinateTypeValues.SCOORD': '2', 'AnnotationCoordinateTypeValues.SCOORD3D': '3'}):
         if isinstance(st, ast.Expr) and _norm(st.value) == 'self.AnnotationGroupSequence.append(group)':
             continue
+        if isinstance(st, ast.Assign) and _norm(st.targets[0]) == 'known_coordinate_type':
+            if _norm(st.value) != "getattr(group,'_coordinate_type',None)":
+                raise Unsupported('SOP constructor: known_coordinate_type is no longer getattr(group, "_coordinate_type", None)')
+            dropped += 1
+            continue
+        if isinstance(st, ast.If) and 'known_coordinate_type' in _norm(st.test):
+            # what a PARSED group knows about its coordinate type: its own program `sopKnownTypeCheck`
+            if not (len(st.body) == 1 and isinstance(st.body[0], ast.Raise) and not st.orelse):
+                raise Unsupported('SOP constructor: check of the known coordinate type changed shape')
+            known_blk.append(st)
+            dropped += 1
+            continue
         blk.append(st)
-    if len(blk) != len(body) - 1 or _norm(body[-1]) != 'self.AnnotationGroupSequence.append(group)':
+    if len(blk) != len(body) - 1 - dropped or _norm(body[-1]) != 'self.AnnotationGroupSequence.append(group)':
         raise Unsupported('SOP constructor: the loop no longer ends in self.AnnotationGroupSequence.append(group)')
     blk.append(ast.parse('return 0').body[0])
+    known_blk.append(ast.parse('return 0').body[0])
+    for s2 in known_blk:
+        ast.fix_missing_locations(s2)
+    known_text = translate_block(known_blk, 'sopKnownTypeCheck', [('coordinate_type', 'int'), ('known_coordinate_type', 'optint')],
+                                 {"hasattr(group, 'CommonZCoordinateValue')": ('bool', 'hasCommonZ')},
+                                 doc='SOP class constructor, second check of a group: ValueError when the coordinate type the group '
+                                     'learned from the instance it was parsed with (`_coordinate_type`) differs from the new instance`s, '
+                                     'or when it stores a common z and the instance is not 3D; 0 = accepted')
     for s2 in blk:
         ast.fix_missing_locations(s2)
     text = translate_block(blk, 'sopGroupCheck', [('i', 'int')],
@@ -604,7 +626,7 @@ def _build_sop_numbering(tree):
                                'non-group, ValueError unless its number is the expected one, ValueError for a group whose graphic data '
                                '(`_graphic_data`, filled by the group constructor under its own coordinate type) is not of the '
                                'instance`s coordinate type')
-    return text, span_sha(body)
+    return text + '\n\n' + known_text, span_sha(body)
 
 
 def _build_filter(tree):
